@@ -90,6 +90,14 @@ theorem roundtrip_same_quantities (c : Config) (h : c.WellFormed) :
       ∀ cpu mem ext, c'.quantifiedResources cpu mem ext = c.quantifiedResources cpu mem ext :=
   ⟨c, config_roundtrip h, fun _ _ _ => rfl⟩
 
+/-- the same for the third `InstanceConfig` class of the tree, `TerraAzureSlimInstanceConfig` (Terra on Azure): its `to_dict` is the
+azure dict (with the resources) plus an opaque `resource_id`, its `from_dict` reads them back — the stored and reloaded config bills
+identical quantities. -/
+theorem roundtrip_same_quantities_terra (c : Config) (h : c.WellFormed) (hc : c.cloud = .azure) :
+    ∃ c', Config.fromDictTerra c.toDict = some c' ∧
+      ∀ cpu mem ext, c'.quantifiedResources cpu mem ext = c.quantifiedResources cpu mem ext :=
+  ⟨c, config_roundtrip_terra h hc, fun _ _ _ => rfl⟩
+
 /-- every resource dict written by `to_dict` is read back as the same resource, field by field
 (including the accelerator's `number`, format version 2) -/
 theorem resource_roundtrip (r : Resource) :
